@@ -284,7 +284,6 @@ func checkC12(c *Ctx) {
 	checkNoEffectUnderEnd(c, m, "C12.R3")
 }
 
-
 // choiceConsumedRule: after Options[choice] is read, every path stores to lastStatement before Next returns or recurses.
 func choiceConsumedRule(c *Ctx, m *runnerModel, rule string) {
 	w := c.W
